@@ -110,6 +110,11 @@ impl LoadBalancer {
   pub async fn wait_for_connection(&self) -> Result<(), ZmqError> {
     let notify = self.notify_waiters.clone();
     loop {
+      // Register for the notification *before* checking, so that an add_connection() or
+      // deactivate() landing between the check and the await is not lost.
+      let notified = notify.notified();
+      tokio::pin!(notified);
+      notified.as_mut().enable();
       if self.deactivated.load(std::sync::atomic::Ordering::Acquire) {
         return Err(ZmqError::InvalidState("Socket closed".into()));
       }
@@ -118,7 +123,7 @@ impl LoadBalancer {
       }
       #[cfg(rzmq_verif)]
       crate::verif::apoint("lb.wait.after_check").await;
-      notify.notified().await;
+      notified.await;
     }
   }
 
